@@ -31,7 +31,10 @@ RULE = ("signal length N in 2..65 (odd and even, every length hit in the thoroug
         "rescaled by 1e-300 .. 1e290 (homogeneity in the amplitude, nothing thresholded); function-backed signals "
         "carry chains of 2-3 filters with DIFFERENT force_real flags and complex non-Hermitian responses, compared "
         "with the product of the per-filter tables (each mirrored by its own flag) and under reversal of the order; "
-        "buffered FunctionSignals are compared with filtering on the extended grid")
+        "buffered FunctionSignals are compared with filtering on the extended grid; plain Signal / GaussianNoise / "
+        "EmptySignal objects whose sampling step changes (resample(n), new times and values assigned) after dt, "
+        "frequencies, spectrum were read or a first filter was applied are filtered with delay / low-pass / the "
+        "case's response and compared with a fresh Signal of the current times and values")
 LEVEL_TEXT = ("theorems C05_* proved over R/C for every length N>=1, every sampling step dt != 0, every signal and every "
               "response function: the pair-DFT of the model is Mathlib's ZMod.dft (bridge lemma), hence linear, "
               "homogeneous, identity for the unit response, offset-free, force_real = Hermitian symmetrisation "
@@ -533,6 +536,54 @@ def _check_case(run, case):
                 j = int(np.argmax(np.abs(rev - got)))
                 fail("stack-order", [j, float(rev[j])], [j, float(got[j])],
                      "the result of a filter chain depends on the order in which the filters were added")
+    if which in ("all", "regrid") and cls == "Signal" and n >= 6:
+        # the sampling step of a PLAIN signal changes after dt / frequencies were read or a first filter was applied
+        # (resample(n), or new times and values assigned): the frequency grid must follow the current step, i.e. the
+        # object must filter like a fresh Signal built from its current times and values
+        gr = np.random.default_rng(case.get("vseed", 1) + 4242)
+        one = lambda f: np.ones(len(f)) if isinstance(f, np.ndarray) else 1.0
+        one.__name__ = "one"
+        for variant in ("resample", "assign", "noise", "empty"):
+            def scenario():
+                if variant == "noise":
+                    sg = ps.GaussianNoise(np.array(times, dtype=float), vmax)
+                elif variant == "empty":
+                    sg = ps.EmptySignal(np.array(times, dtype=float))
+                else:
+                    sg = ps.Signal(np.array(times, dtype=float), np.array(x, dtype=float))
+                _ = (sg.dt, sg.frequencies, sg.spectrum)
+                if case.get("vseed", 0) % 2:
+                    sg.filter_frequencies(one)
+                if variant == "resample":
+                    sg.resample(max(4, int(round(n * [0.977, 1.3, 0.5][case.get("vseed", 0) % 3]))))
+                else:
+                    sg.times = float(times[0]) + dte * 1.023 * np.arange(n)
+                    if variant != "empty":      # (an EmptySignal stays empty: its filter is a no-op by design)
+                        sg.values = np.random.default_rng(case.get("vseed", 1) + 99).standard_normal(n) * vmax
+                return sg
+            s0 = scenario()
+            t2, v2 = np.array(s0.times, dtype=float).copy(), np.array(s0.values, dtype=float).copy()
+            dt2 = float(t2[1] - t2[0])
+            n2 = len(t2)
+            vm2 = float(np.max(np.abs(v2))) or 1.0
+            trials = [("delay", min(n2 // 3, 100) * dt2, 0.0), ("lowpass", (n2 // 3 + 0.5) / (2 * n2 * dt2), 0.0)]
+            if kind not in ("const",):
+                trials.append((kind, p1, p2))
+            for k_, a_, b_ in trials:
+                used = scenario()
+                used.filter_frequencies(resp_fn(k_, a_, b_, None), force_real=fr)
+                fresh = ps.Signal(t2.copy(), v2.copy())
+                fresh.filter_frequencies(resp_fn(k_, a_, b_, None), force_real=fr)
+                ua, fa_ = np.array(used.values, dtype=float), np.array(fresh.values, dtype=float)
+                if ua.shape != fa_.shape or float(np.max(np.abs(ua - fa_))) > 1e-12 * vm2 * max(1.0, resp_max(k_, a_, b_)):
+                    j = int(np.argmax(np.abs(ua - fa_))) if ua.shape == fa_.shape else 0
+                    fail("regrid", [variant, k_, j, float(ua[j])], [variant, k_, j, float(fa_[j])],
+                         "a signal whose sampling step changed (%s) after dt / frequencies / a first filter were used "
+                         "does not filter like a fresh Signal with its current times and values" % variant)
+                    break
+            else:
+                continue
+            break
     if which in ("all", "reuse"):
         # the same response object and the same samples again: nothing may be remembered, nothing may have been
         # written into the response's own table or into the caller's arrays
